@@ -241,12 +241,12 @@ End Search.
 Lemma fits_obj kvs : fits (JObj kvs) = true ->
   forallb member_ok kvs = true /\ blen (encode_value (JObj kvs)) <= 2 ^ 24.
 Proof.
-  unfold fits. intros H. apply andb_true_iff in H. destruct H as [H1 H2]. split; [exact H1|lia].
+  unfold fits. intros H. apply andb_true_iff in H. destruct H as [H1 H2]. cbn [is_str orb] in H2. split; [exact H1|lia].
 Qed.
 Lemma fits_arr els : fits (JArr els) = true ->
   forallb (wf_json true) els = true /\ blen (encode_value (JArr els)) <= 2 ^ 24.
 Proof.
-  unfold fits. intros H. apply andb_true_iff in H. destruct H as [H1 H2]. split; [exact H1|lia].
+  unfold fits. intros H. apply andb_true_iff in H. destruct H as [H1 H2]. cbn [is_str orb] in H2. split; [exact H1|lia].
 Qed.
 
 Lemma get_obj kvs key :
